@@ -40,7 +40,8 @@ PROBE_MAP = {
     "bigelem-map": "C15-map-indirect-slot-size",
     "methorder": "C15-method-order-pkgpath", "meth-map-mixed": "C15-method-order-pkgpath", "meth-struct-mixed": "C15-method-order-pkgpath",
     "convf32": "C15-convert-float32", "emptystr": "C15-empty-string-to-slice", "typearg": "C15-typearg-struct-string",
-    "aliasid": "C15-alias-typelist", "recfunc2": "C15-recursive-func-struct-offsets",
+    "aliasid": "C15-alias-typelist", "recfunc2": "C15-recursive-func-struct-offsets", "call-ret-overflow": "C15-call-return-overflow",
+    "derived-gc": "C15-ptrto-extra-star",
 }
 
 open_ids = [f["id"] for f in chk.open_findings()]
